@@ -47,7 +47,7 @@ Definition evaluate (ev : evaluator) (d : iface) : outcome :=
 Definition expression (ev : evaluator) : string := ev_src ev.
 
 (* ---------- Filter (filter.go), repaired ---------- *)
-Inductive fres :=
+Inductive exres :=
 | FSlice (t : gtype) (kept : list gval)
 | FMap (t : gtype) (kept : list (gval * gval))
 | FData (d : iface)              (* nil filter: the input itself *)
@@ -75,7 +75,7 @@ Fixpoint filter_map (ev : evaluator) (et : gtype) (l : list (gval * gval)) (acc 
                    end
   end.
 
-Definition execute (f : option evaluator) (data : iface) : fres :=
+Definition execute (f : option evaluator) (data : iface) : exres :=
   match f with
   | None => FData data
   | Some ev =>
